@@ -42,6 +42,8 @@ func main() {
 			fmt.Fprintln(os.Stderr, err)
 			os.Exit(1)
 		}
+	case "kf":
+		runKF(out)
 	case "suite2020", "suite7":
 		d := "2020"
 		if family == "suite7" {
